@@ -124,4 +124,4 @@ def run(ctx):
                     ctx.oblige("C01|undocumented-lossy|%s|%s" % (a["path"], m["field"]), False,
                                "%s.%s is decoded through %s but is not a documented lossy member" % (a["path"], m["field"], m["with"]["fn"]), cfg=cfg)
         n = c11.check_dispatch(ctx, F, cfg, cmds, P="C01")
-        ctx.floor("command switch result sites", n, 10, cfg=cfg)
+        ctx.floor("command switch result sites", n, 3, cfg=cfg)
